@@ -24,6 +24,7 @@ pub fn defs() -> Vec<ScenDef> {
         d("rwc", rwc, true),
         d("rwcr", rwcr, true),
         d("semlock", semlock, false),
+        d("barc", barc, true),
         d("relock", relock, true),
         d("rwseq", rwseq, false),
         d("hsmutex", hsmutex, false),
@@ -732,6 +733,109 @@ fn relock(x: &mut Exec) -> Res {
         Err(_) => viol("relock: mutex poisoned although only Cancel unwinds happened"),
     };
     res
+}
+
+/// a reused Barrier with one coroutine party that is cancelled while it waits in generation 0 (a substitute takes its
+/// place from generation 1 on). The hook counters tell when the target is registered inside the barrier, so its
+/// arrival always counts and the cancel races only with the release of generation 0 and the arrivals for generation 1.
+fn barc(x: &mut Exec) -> Res {
+    if !hook::INSTALLED.load(SeqCst) {
+        return Ok(());
+    }
+    let n = x.rng.range(2, 3) as usize;
+    let gens = x.rng.range(2, if x.thorough { 8 } else { 4 }) as usize;
+    let b = Arc::new(Barrier::new(n));
+    let arrivals = Arc::new(AtomicUsize::new(0));
+    let errs = Arc::new(std::sync::Mutex::new(Vec::<String>::new()));
+    let gen0_done = Arc::new(AtomicBool::new(false));
+    let registered = || hook::HITS[may::queue::verif::site::CV_WAIT_PUSHED as usize].load(SeqCst);
+    // the target: generation 0 only
+    let (tb, tarr) = (b.clone(), arrivals.clone());
+    let (_, target) = x.spawn_co("target", move |a| {
+        tarr.fetch_add(1, SeqCst);
+        a.call("barrier.wait", 0);
+        let _ = tb.wait();
+        a.ret("barrier.wait", 0, 0);
+        loop {
+            may::coroutine::park();
+        }
+    });
+    // regular parties; party 0 is the last arrival of generation 0: it waits until everybody else is registered
+    for i in 0..n - 1 {
+        let (b, arrivals, errs, gen0) = (b.clone(), arrivals.clone(), errs.clone(), gen0_done.clone());
+        let mut r = x.rng.fork();
+        let gate = i == 0;
+        x.spawn(&format!("b{}", i), i != 0 || r.chance(1, 2), move |a| {
+            for g in 0..gens {
+                if gate && g == 0 {
+                    let t0 = Instant::now();
+                    while hook::HITS[may::queue::verif::site::CV_WAIT_PUSHED as usize].load(SeqCst) < n - 1 && t0.elapsed() < Duration::from_secs(4) {
+                        nap(50);
+                    }
+                    nap(r.below(600));
+                } else if r.chance(1, 3) {
+                    nap(r.below(200));
+                }
+                arrivals.fetch_add(1, SeqCst);
+                a.call("barrier.wait", g as u64);
+                let _ = b.wait();
+                let seen = arrivals.load(SeqCst);
+                a.ret("barrier.wait", g as u64, seen as u64);
+                if seen < n * (g + 1) {
+                    errs.lock().unwrap().push(format!("a party was released from generation {} of Barrier({}) after only {} of {} arrivals", g, n, seen, n * (g + 1)));
+                }
+                if g == 0 {
+                    gen0.store(true, SeqCst);
+                }
+            }
+        });
+    }
+    // the substitute: generations 1.. (it must not arrive before generation 0 is complete, a barrier counts arrivals)
+    {
+        let (b, arrivals, errs, gen0) = (b.clone(), arrivals.clone(), errs.clone(), gen0_done.clone());
+        let mut r = x.rng.fork();
+        x.spawn("substitute", true, move |a| {
+            let t0 = Instant::now();
+            while !gen0.load(SeqCst) && t0.elapsed() < Duration::from_secs(8) {
+                nap(50);
+            }
+            for g in 1..gens {
+                nap(r.below(400));
+                arrivals.fetch_add(1, SeqCst);
+                a.call("barrier.wait", g as u64);
+                let _ = b.wait();
+                let seen = arrivals.load(SeqCst);
+                a.ret("barrier.wait", g as u64, seen as u64);
+                if seen < n * (g + 1) {
+                    errs.lock().unwrap().push(format!("the substitute was released from generation {} of Barrier({}) after only {} of {} arrivals", g, n, seen, n * (g + 1)));
+                }
+            }
+        });
+    }
+    x.desc = format!("reused Barrier({}) x {} generations, one coroutine party cancelled while it waits in generation 0", n, gens);
+    // cancel only once the target's arrival is counted
+    {
+        let t0 = Instant::now();
+        while registered() < n - 1 && t0.elapsed() < Duration::from_secs(4) {
+            std::thread::sleep(Duration::from_micros(50));
+        }
+        if registered() < n - 1 {
+            return Err(Fail::Inconclusive("the parties of generation 0 did not register within 4 s".into()));
+        }
+    }
+    let at = x.rng.below(900);
+    wait_fire(at);
+    unsafe { target.coroutine().cancel() };
+    x.wait_all()?;
+    match target.join() {
+        Err(e) if is_cancel_panic(&e) => {}
+        Err(_) => return viol("Barrier+cancel: target ended with a non-Cancel panic"),
+        Ok(_) => return viol("Barrier+cancel: join() of the cancelled endless target returned Ok"),
+    }
+    if let Some(e) = errs.lock().unwrap().first() {
+        return viol(format!("Barrier: {}", e));
+    }
+    Ok(())
 }
 
 // ------------------------------------------------------------------------------------ Barrier + WaitGroup
